@@ -155,6 +155,16 @@ def witnesses(tier, seed):
             tree = bool_tree(rng, t)
             for n in rng_sz.sample(sizes_all, 2 if quick else 5):
                 W.append(mk(t, n, tree, '=', 'bool%d' % i))
+    # integer division (vector/vector, vector/scalar, scalar/vector; '=' and '/='): appended after the frozen corpus.
+    # Division by zero is undefined for the reference as well; the comparison is structural (sdiv terms) and a refutation
+    # point with a zero divisor is not a defined execution and is skipped by the evaluator.
+    INT_DIV = [lambda: B('/', L('a'), L('b')), lambda: B('/', L('a'), S), lambda: B('/', S, L('a')), lambda: B('/', B('+', L('a'), L('b')), S), lambda: B('/', S, B('-', L('a'), L('b'))), lambda: B('-', L('c'), B('/', S, L('a')))]
+    for t in ('i32', 'i64'):
+        for i, f in enumerate(INT_DIV):
+            for n in (sizes_all if i < 3 else [3, 4, 7, 8, 9, 16, 17]):
+                W.append(mk(t, n, f(), '=' if (n + i) % 3 else '+=', 'idiv%d' % i))
+        for n in (1, 2, 3, 4, 5, 7, 8, 9, 15, 16, 17):
+            W.append(mk(t, n, L('a'), '/=', 'idivasg_t')); W.append(mk(t, n, S, '/=', 'idivasg_s')); W.append(mk(t, n, B('+', L('a'), L('b')), '/=', 'idivasg_e'))
     return group_sort(W)
 
 
